@@ -164,6 +164,7 @@ WiringPortRef resolve_ref(Scope &sc, const JV &ref) {
         port = it->second;
     } else throw std::runtime_error("harness: bad port ref");
     if (auto *p = ref.get("path")) port = project(port, *p);
+    if (ref.bool_or("keyset", false)) port = subgraph_wiring_detail::tsd_key_set_ref(port);   // the TSS[K] key-set endpoint of a dictionary
     if (ref.bool_or("passive", false)) port = port.with_arg_tag(WiringPortRef::ArgTag::Passive);
     return port;
 }
